@@ -195,7 +195,226 @@ pub broadcast proof fn lemma_extends_push2(pre: Seq<Seq<Seq<u8>>>, d1: Seq<Seq<u
 {
     assert(pre.push(d1).push(d2).subrange(0, pre.len() as int) == pre);
 }
+
+// ---------------------------------------------------------------------------------------------
+// The per-call postconditions of write/flush as a transition relation on the abstract view
+// (pending chunk list, wire log). The history lemmas below consume exactly this relation.
+// ---------------------------------------------------------------------------------------------
+pub struct AbsView {
+    pub pending: Seq<Seq<u8>>,
+    pub wire: Seq<Seq<Seq<u8>>>,
+}
+
+pub open spec fn step_write(pre: AbsView, m: Seq<u8>, ok: bool, post: AbsView, e: Seq<u8>, cap: nat) -> bool {
+    if !ok {
+        (post.pending =~= pre.pending && post.wire =~= pre.wire)
+    } else if m.len() + e.len() > cap {
+        post.pending =~= pre.pending && post.wire =~= pre.wire.push(seq![m])
+    } else {
+        ||| (post.wire =~= pre.wire && post.pending =~= pre.pending.push(m).push(e))
+        ||| (pre.pending.len() > 0 && post.wire =~= pre.wire.push(pre.pending) && post.pending =~= Seq::<Seq<u8>>::empty().push(m).push(e))
+        ||| (post.wire =~= pre.wire.push(pre.pending.push(m).push(e)) && post.pending =~= Seq::<Seq<u8>>::empty())
+    }
+}
+
+pub open spec fn step_flush(pre: AbsView, ok: bool, post: AbsView) -> bool {
+    if !ok {
+        (post.pending =~= pre.pending && post.wire =~= pre.wire)
+    } else {
+        post.pending =~= Seq::<Seq<u8>>::empty()
+        && post.wire =~= (if pre.pending.len() > 0 { pre.wire.push(pre.pending) } else { pre.wire })
+    }
+}
 } // mod spec
+
+pub mod lemmas {
+// ---------------------------------------------------------------------------------------------
+// History lemmas (unbounded induction over the length of the history). They talk only about the
+// transition relation step_write/step_flush, i.e. about the contracts, not about the code.
+// ---------------------------------------------------------------------------------------------
+use vstd::prelude::*;
+use super::model::*;
+use super::spec::*;
+
+pub enum Op { Write(Seq<u8>), Flush }
+
+pub open spec fn step(pre: AbsView, op: Op, ok: bool, post: AbsView, e: Seq<u8>, cap: nat) -> bool {
+    match op {
+        Op::Write(m) => step_write(pre, m, ok, post, e, cap),
+        Op::Flush => step_flush(pre, ok, post),
+    }
+}
+
+/// a history: states s[0..=n], operations with their outcome (true = returned Ok), consecutive steps
+pub open spec fn trace_ok(s: Seq<AbsView>, ops: Seq<(Op, bool)>, e: Seq<u8>, cap: nat) -> bool {
+    s.len() == ops.len() + 1
+    && forall|i: int| 0 <= i < ops.len() ==> step(s[i], #[trigger] ops[i].0, ops[i].1, s[i + 1], e, cap)
+}
+
+pub open spec fn fits(m: Seq<u8>, e: Seq<u8>, cap: nat) -> bool { m.len() + e.len() <= cap }
+
+/// [m1, e, m2, e, ...]
+pub open spec fn chunkify(ms: Seq<Seq<u8>>, e: Seq<u8>) -> Seq<Seq<u8>>
+    decreases ms.len()
+{
+    if ms.len() == 0 { Seq::empty() } else { chunkify(ms.drop_last(), e).push(ms.last()).push(e) }
+}
+
+/// the Ok-acknowledged metrics that fit an empty buffer, in emission order
+pub open spec fn acked_fit(ops: Seq<(Op, bool)>, e: Seq<u8>, cap: nat) -> Seq<Seq<u8>>
+    decreases ops.len()
+{
+    if ops.len() == 0 { Seq::empty() } else {
+        let r = acked_fit(ops.drop_last(), e, cap);
+        match ops.last() {
+            (Op::Write(m), true) => if fits(m, e, cap) { r.push(m) } else { r },
+            _ => r,
+        }
+    }
+}
+/// the Ok-acknowledged oversized metrics, in emission order
+pub open spec fn acked_big(ops: Seq<(Op, bool)>, e: Seq<u8>, cap: nat) -> Seq<Seq<u8>>
+    decreases ops.len()
+{
+    if ops.len() == 0 { Seq::empty() } else {
+        let r = acked_big(ops.drop_last(), e, cap);
+        match ops.last() {
+            (Op::Write(m), true) => if !fits(m, e, cap) { r.push(m) } else { r },
+            _ => r,
+        }
+    }
+}
+/// chunks of all framed datagrams (a datagram of exactly one chunk is an oversized metric sent alone)
+pub open spec fn wire_chunks(w: Seq<Seq<Seq<u8>>>) -> Seq<Seq<u8>>
+    decreases w.len()
+{
+    if w.len() == 0 { Seq::empty() } else {
+        let r = wire_chunks(w.drop_last());
+        if w.last().len() == 1 { r } else { r + w.last() }
+    }
+}
+pub open spec fn wire_big(w: Seq<Seq<Seq<u8>>>) -> Seq<Seq<u8>>
+    decreases w.len()
+{
+    if w.len() == 0 { Seq::empty() } else {
+        let r = wire_big(w.drop_last());
+        if w.last().len() == 1 { r.push(w.last()[0]) } else { r }
+    }
+}
+
+proof fn lemma_wire_push(w: Seq<Seq<Seq<u8>>>, d: Seq<Seq<u8>>)
+    ensures
+        d.len() != 1 ==> wire_chunks(w.push(d)) == wire_chunks(w) + d && wire_big(w.push(d)) == wire_big(w),
+        d.len() == 1 ==> wire_chunks(w.push(d)) == wire_chunks(w) && wire_big(w.push(d)) == wire_big(w).push(d[0]),
+{
+    assert(w.push(d).drop_last() == w);
+}
+
+proof fn lemma_chunkify_push(ms: Seq<Seq<u8>>, m: Seq<u8>, e: Seq<u8>)
+    ensures chunkify(ms.push(m), e) == chunkify(ms, e).push(m).push(e)
+{
+    assert(ms.push(m).drop_last() == ms);
+}
+
+proof fn lemma_prefix_trace(s: Seq<AbsView>, ops: Seq<(Op, bool)>, e: Seq<u8>, cap: nat)
+    requires trace_ok(s, ops, e, cap), ops.len() > 0
+    ensures trace_ok(s.drop_last(), ops.drop_last(), e, cap),
+        step(s[ops.len() - 1], ops.last().0, ops.last().1, s.last(), e, cap),
+        s.drop_last().last() == s[ops.len() - 1], s.drop_last()[0] == s[0],
+{
+    let s0 = s.drop_last(); let o0 = ops.drop_last();
+    assert forall|i: int| 0 <= i < o0.len() implies step(s0[i], #[trigger] o0[i].0, o0[i].1, s0[i + 1], e, cap) by {
+        assert(s0[i] == s[i] && s0[i + 1] == s[i + 1] && o0[i] == ops[i]);
+    }
+    let n = ops.len() as int;
+    assert(ops[n - 1] == ops.last());
+}
+
+/// C06 / C07 -- conservation, for EVERY history and EVERY pattern of failed socket writes:
+/// the chunks of all framed datagrams on the wire followed by what is still pending are exactly the
+/// Ok-acknowledged fitting metrics (each followed by the terminator), in emission order, each once;
+/// the oversized datagrams are exactly the Ok-acknowledged oversized metrics, in order, unmodified.
+/// Nothing refused (Err) ever appears, nothing appears twice.
+pub proof fn lemma_conservation(s: Seq<AbsView>, ops: Seq<(Op, bool)>, e: Seq<u8>, cap: nat)
+    requires trace_ok(s, ops, e, cap), s[0].pending.len() == 0, s[0].wire.len() == 0
+    ensures
+        wire_chunks(s.last().wire) + s.last().pending == chunkify(acked_fit(ops, e, cap), e),
+        wire_big(s.last().wire) == acked_big(ops, e, cap),
+        s.last().pending.len() % 2 == 0,
+    decreases ops.len()
+{
+    if ops.len() == 0 {
+        assert(wire_chunks(s[0].wire) + s[0].pending =~= Seq::<Seq<u8>>::empty());
+        assert(wire_big(s[0].wire) =~= Seq::<Seq<u8>>::empty());
+    } else {
+        lemma_prefix_trace(s, ops, e, cap);
+        let s0 = s.drop_last(); let o0 = ops.drop_last();
+        lemma_conservation(s0, o0, e, cap);
+        let pre = s0.last(); let post = s.last();
+        let af0 = acked_fit(o0, e, cap);
+        match ops.last().0 {
+            Op::Flush => {
+                if ops.last().1 {
+                    lemma_wire_push(pre.wire, pre.pending);
+                    assert(wire_chunks(post.wire) + post.pending =~= wire_chunks(pre.wire) + pre.pending);
+                }
+            }
+            Op::Write(m) => {
+                if ops.last().1 {
+                    if !fits(m, e, cap) {
+                        lemma_wire_push(pre.wire, seq![m]);
+                    } else {
+                        lemma_chunkify_push(af0, m, e);
+                        lemma_wire_push(pre.wire, pre.pending);
+                        lemma_wire_push(pre.wire, pre.pending.push(m).push(e));
+                        assert(wire_chunks(post.wire) + post.pending =~= (wire_chunks(pre.wire) + pre.pending).push(m).push(e));
+                    }
+                }
+            }
+        }
+    }
+}
+
+/// C06: a successful flush leaves nothing pending, so everything acknowledged so far is on the wire,
+/// and flushing again appends nothing (idempotence)
+pub proof fn lemma_flush_complete(s: Seq<AbsView>, ops: Seq<(Op, bool)>, e: Seq<u8>, cap: nat)
+    requires trace_ok(s, ops, e, cap), s[0].pending.len() == 0, s[0].wire.len() == 0,
+        ops.len() > 0, ops.last().0 is Flush, ops.last().1,
+    ensures
+        wire_chunks(s.last().wire) == chunkify(acked_fit(ops, e, cap), e),
+        forall|post: AbsView| step_flush(s.last(), true, post) ==> post.wire == s.last().wire,
+{
+    lemma_conservation(s, ops, e, cap);
+    lemma_prefix_trace(s, ops, e, cap);
+    assert(s.last().pending.len() == 0);
+    assert(wire_chunks(s.last().wire) + s.last().pending =~= wire_chunks(s.last().wire));
+}
+
+/// C05, lifted to histories: if every step extends the log only by well-formed datagrams, every
+/// datagram ever sent is well formed
+pub proof fn lemma_all_datagrams_ok(logs: Seq<Seq<Seq<Seq<u8>>>>, e: Seq<u8>, cap: nat)
+    requires logs.len() > 0, logs[0].len() == 0,
+        forall|i: int| 0 <= i < logs.len() - 1 ==> log_extends_ok(#[trigger] logs[i], logs[i + 1], e, cap),
+    ensures forall|k: int| 0 <= k < logs.last().len() ==> dgram_ok(#[trigger] logs.last()[k], e, cap)
+    decreases logs.len()
+{
+    if logs.len() > 1 {
+        let l0 = logs.drop_last();
+        assert forall|i: int| 0 <= i < l0.len() - 1 implies log_extends_ok(#[trigger] l0[i], l0[i + 1], e, cap) by {
+            assert(l0[i] == logs[i] && l0[i + 1] == logs[i + 1]);
+        }
+        lemma_all_datagrams_ok(l0, e, cap);
+        let n = logs.len() as int;
+        assert(l0.last() == logs[n - 2]);
+        assert(log_extends_ok(logs[n - 2], logs[n - 1], e, cap));
+        assert forall|k: int| 0 <= k < logs.last().len() implies dgram_ok(#[trigger] logs.last()[k], e, cap) by {
+            if k < logs[n - 2].len() {
+                assert(logs[n - 1].subrange(0, logs[n - 2].len() as int)[k] == logs[n - 1][k]);
+            }
+        }
+    }
+}
+} // mod lemmas
 
 pub mod frame {
 // ---------------------------------------------------------------------------------------------
@@ -242,6 +461,7 @@ impl MultiLineWriter {
     }
     spec fn pending(&self) -> Seq<Seq<u8>> { self.inner.chunks@ }
     spec fn wire(&self) -> Seq<Seq<Seq<u8>>> { self.inner.inner.log@ }
+    spec fn absview(&self) -> AbsView { AbsView { pending: self.inner.chunks@, wire: self.inner.inner.log@ } }
     spec fn last_err(&self) -> Option<IoError> { self.inner.inner.last_err@ }
     spec fn ending(&self) -> Seq<u8> { self.line_ending@ }
     spec fn cap(&self) -> nat { self.capacity as nat }
@@ -299,6 +519,7 @@ impl MultiLineWriter {
                     ||| (final(self).wire() == old(self).wire().push(old(self).pending().push(buf@).push(old(self).ending()))
                          && final(self).pending() == Seq::<Seq<u8>>::empty())
                 }),                                                    // [C06] an accepted fitting metric is buffered exactly once behind everything accepted earlier; whatever leaves is the whole old buffer, once, in order
+            step_write(old(self).absview(), buf@, r.is_ok(), final(self).absview(), old(self).ending(), old(self).cap()),  // [C06 C07] write is one step of the abstract transition relation consumed by the history lemmas (conservation for every history and fault pattern)
             r.is_err() ==> final(self).pending() == old(self).pending(),   // [C07] failed emit: everything accepted earlier stays buffered, its own metric is not buffered
             r.is_err() ==> final(self).wire() == old(self).wire(),         // [C07] failed emit: nothing reached the wire
     //@END
@@ -318,6 +539,7 @@ impl MultiLineWriter {
             r.is_err() ==> final(self).buffered() == old(self).buffered(),     // (helper)
             r.is_ok() ==> final(self).wire() == (if old(self).pending().len() > 0 { old(self).wire().push(old(self).pending()) } else { old(self).wire() }),  // [C06] flush sends exactly the pending metrics, once, in order, as one datagram; with nothing pending it sends nothing
             r.is_ok() ==> final(self).last_err() == old(self).last_err(),
+            step_flush(old(self).absview(), r.is_ok(), final(self).absview()),     // [C06 C07] flush is one step of the abstract transition relation consumed by the history lemmas
             r.is_err() ==> final(self).pending() == old(self).pending(),     // [C07] failed flush keeps everything buffered
             r.is_err() ==> final(self).wire() == old(self).wire(),           // [C07] failed flush: nothing reached the wire
             r matches Err(e) ==> final(self).last_err() == Some(e),          // [C07] the error returned by flush is the socket's own error
